@@ -24,7 +24,7 @@ pub fn scripts(thorough: bool, rng: &mut Rng) -> Vec<Script> {
     let mut singles = vec![];
     for (fc, k) in KINDS { for a in faults_for(k) { singles.push(Rule { from_client: fc, typ: k, act: a }); } }
     for r in &singles { v.push(Script { ce: 'o', se: 'n', rules: vec![r.clone()] }); }
-    let n = if thorough { 200 } else { 12 };
+    let n = if thorough { 1500 } else { 12 };
     for _ in 0..n {
         let a = rng.pick(&singles).clone();
         let b = rng.pick(&singles).clone();
@@ -51,7 +51,7 @@ pub fn run(args: &Args) {
     let mut rng = Rng::new(args.seed);
     let all = scripts(args.tier_thorough, &mut rng);
     // sessions wait for real retransmission timers (1 s each): run them concurrently in batches
-    for batch in all.chunks(24) {
+    for batch in all.chunks(48) {
         let mut pending: Vec<&Script> = batch.iter().collect();
         for _attempt in 0..3 {
             if pending.is_empty() { break; }
